@@ -1261,7 +1261,11 @@ func funTrim(s string) (string, error) {
 }
 
 func funRegexp(s string, reg string) (bool, error) {
-	return regexp.MustCompile(reg).Match([]byte(s)), nil
+	re, err := regexp.Compile(reg)
+	if err != nil {
+		return false, err
+	}
+	return re.Match([]byte(s)), nil
 }
 
 func funMapToArr(m []map[string]any, key string) ([]any, error) {
